@@ -12,14 +12,15 @@ def main():
     chk.timeout = 40 if chk.tier == 'quick' else 300
     for fn in ('mjraw_PlaneSphere', 'mjraw_SphereSphere', 'mjraw_SphereCapsule', 'c13_frame'):
         chk.unit('verif:shims/c13_prims.c', fn, prims.CONTRACTS, 'math', 'real', abspath=SHIM, check_arith=False)
+    chk.unit('verif:shims/c13_prims.c', 'mjc_PlaneCapsule', prims.plane_capsule_contracts(), 'math', 'real', abspath=SHIM, check_arith=False)
     for fn in ('getMargin', 'getGap'):
         chk.unit('src/engine/engine_collision_driver.c', fn, prims.MARGIN_CONTRACTS, 'math', 'real')
     import hashlib
     from vlib.cast import REPO
     for f in ('src/engine/engine_collision_primitive.c', 'src/engine/engine_util_spatial.c', 'src/engine/engine_util_blas.c'):
         chk.sources[f] = hashlib.sha256(open(os.path.join(REPO, f), 'rb').read()).hexdigest()
-    chk.out_of_reach += ['capsule-capsule, plane-capsule / cylinder / box / ellipsoid colliders (sphere-capsule is under contract), mj_geomDistance, mj_setContact, convex (GJK/EPA) pairs']
-    chk.assumptions |= {'machine doubles treated as mathematical reals', 'plane frame matrix has a unit third column',
+    chk.out_of_reach += ['capsule-capsule, plane-cylinder / box / ellipsoid colliders (sphere-capsule and plane-capsule are under contract), mj_geomDistance, mj_setContact, convex (GJK/EPA) pairs']
+    chk.assumptions |= {'machine doubles treated as mathematical reals', 'mjc_PlaneCapsule uses mjraw_PlaneSphere by its proved contract plus the frame fact that it stores only through the contact pointer it is given', 'plane frame matrix has a unit third column',
                         'mju_makeFrame is proved for frames built from the normal alone (tangent of squared length < 0.25, as every '
                         'primitive collider leaves it); the supplied-tangent path is not claimed'}
     return chk.finish()
